@@ -139,7 +139,7 @@ def run_unit(ctx: Ctx, qualname: str) -> None:
                 f"no exception other than {sorted(fc.raises) or 'none'} escapes",
                 pr.where or where_exit,
                 note=f"{ename} escapes (raised at {pr.where})",
-                props=fc.props,
+                props=("C04",) if "C04" in fc.props else fc.props,
                 assume_after=False,
             )
         if declared or fc.exceptional == "app":
